@@ -484,10 +484,10 @@ func genSubset(t *rapid.T) SubsetCase {
 
 func init() {
 	vf.Register(
-		vf.Sub[Case]{Name: "checker", Quick: 12000, Thorough: 150000, Gen: genCase, Check: check, Floor: 0.4,
+		vf.Sub[Case]{Name: "checker", Quick: 12000, Thorough: 75000, Gen: genCase, Check: check, Floor: 0.4,
 			Classes: map[string]float64{"checker-valid": 0.2, "checker-invalid": 0.2},
 			Rule:    "CNF n<=8 (duplicate literals, tautologies) via explain.ParseCNF x certificate from: genuine solver trace; trace with a literal dropped / flipped, a line deleted, two lines swapped; random clauses; consequences that are not RUP; non-consequences; entry Unsat(io.Reader) (with comment/blank lines) or UnsatChan; oracle = truth-table entailment + independent RUP checker; asserted: valid => every examined line is a consequence; all lines RUP => valid; problem unchanged and same answer when checked again; non-trivial = >=1 non-empty line that is not a copy of an input clause"},
-		vf.Sub[SubsetCase]{Name: "unsat-subset", Quick: 8000, Thorough: 100000, Gen: genSubset, Check: checkSubset, Floor: 0.15,
+		vf.Sub[SubsetCase]{Name: "unsat-subset", Quick: 8000, Thorough: 50000, Gen: genSubset, Check: checkSubset, Floor: 0.15,
 			Rule: "CNF n<=8 with duplicate literals and repeated clauses; UnsatSubset: unsat => sub-multiset of the input that is unsat by truth table, sat => error, caller's problem unchanged; non-trivial = unsat input and a strictly smaller subset"},
 	)
 }
